@@ -833,6 +833,7 @@ def s_mul(a, b):
     return _wrap2(operator.mul, 'mul')(a, b)
 
 
+ELEMENT_RANK = None       # ordering hypothesis of a rule for abstract elements: callable(value) -> rank or None
 OP_HOOK = None            # rule hook: called as OP_HOOK(kind, a, b) for every scalar division / multiplication of the run
 
 
